@@ -322,6 +322,10 @@ def run_check(prop, families, level='model_checking', technique='',
     wall = time.time() - t0
     if post is not None:
         post_ev = post(tier)
+        if isinstance(post_ev, dict) and post_ev.get('disagreements'):
+            harness_errors.append(
+                'translation validation: symbolic DB and SQLite disagree: %s'
+                % str(post_ev['disagreements'][:2])[:600])
     else:
         post_ev = None
     # ---- verdict
